@@ -1,5 +1,5 @@
 """Property -> rules table.  Rules are functions (ctx, repo)."""
-from .rules import ndim, iface, wrappers, rng, mech, errmodels, popmodels, switch, copies, cursors, reduced, layout, noise, filters, caches, problems, dosing, sbml, predictive, inference, plots, loglik, purity
+from .rules import ndim, iface, wrappers, rng, mech, errmodels, popmodels, switch, copies, cursors, reduced, layout, noise, filters, caches, problems, dosing, sbml, predictive, inference, plots, loglik, purity, lint
 
 PROPS = {}
 
@@ -21,8 +21,31 @@ CUR_INIT = cursors.scoped(
     floor=3)
 
 
+def _anchor_files():
+    import json
+    import os
+    out = {}
+    here = os.path.dirname(os.path.dirname(os.path.abspath(__file__)))
+    with open(os.path.join(here, 'properties.jsonl')) as f:
+        for line in f:
+            if line.strip():
+                p = json.loads(line)
+                files = []
+                for x in p['anchors']['files']:
+                    if '*' in x:
+                        continue
+                    files.append(x)
+                out[p['id']] = files
+    return out
+
+
+ANCHOR_FILES = _anchor_files()
+
+
 def prop(pid, quick, thorough=(), undecided=(), assumptions=(),
          explanation='', technique='', level_text=''):
+    quick = list(quick) + [lint.scoped('r00_%s' % pid,
+                                       ANCHOR_FILES.get(pid))]
     PROPS[pid] = dict(quick=list(quick), thorough=list(thorough),
                       undecided=list(undecided),
                       assumptions=list(assumptions),
@@ -38,8 +61,9 @@ COMMON_ASSUME = [
 ]
 
 prop('C01',
-     [CUR_LL, switch.r03_5, errmodels.r04_terms, loglik.r01_2,
-      loglik.r01_3, loglik.r01_4, caches.r08_5, copies.r19_3],
+     [CUR_LL, switch.r03_5, errmodels.r04_terms, errmodels.r04_1,
+      loglik.r01_2, loglik.r01_3, loglik.r01_4, caches.r08_5, copies.r19_3,
+      reduced.r08_1, reduced.r08_2],
      undecided=['that the mechanistic prediction is the model value at that '
                 'time (ODE solver)', 'float equality of time points'],
      assumptions=COMMON_ASSUME,
@@ -55,7 +79,8 @@ prop('C01',
 
 prop('C02',
      [iface.r02_1, iface.r02_7, iface.r02_6, wrappers.r02_2, CUR_HIER,
-      layout.r02_3, layout.r02_4, layout.r07_1],
+      layout.r02_3, layout.r02_4, layout.r07_1, popmodels.r05_2,
+      layout.r05_3],
      undecided=['numerical equality of the score with the hand-assembled sum',
                 'covariate values reaching the right individual at run time'],
      assumptions=COMMON_ASSUME,
@@ -96,7 +121,8 @@ TERM_ASSUME = COMMON_ASSUME + [
 prop('C03',
      [errmodels.r04_terms, popmodels.r05_2, iface.r02_7, switch.r03_5,
       switch.r08_7, CUR_LL, CUR_HIER, layout.r07_1, layout.r05_3,
-      noise.r13_3, filters.r12_3],
+      noise.r13_3, filters.r12_3, layout.r02_3, reduced.r08_2,
+      layout.r13_1],
      undecided=['mechanistic sensitivities (sundials)',
                 'finiteness of scores at run time'],
      assumptions=TERM_ASSUME,
@@ -111,7 +137,8 @@ prop('C03',
                  'sensitivities is that score.')
 
 prop('C05',
-     [ndim.r05_1, popmodels.r05_2, cursors.r05_4, layout.r05_3],
+     [ndim.r05_1, popmodels.r05_2, cursors.r05_4, layout.r05_3,
+      reduced.r08_2],
      undecided=['numerical values at boundary points', '-inf vs nan'],
      assumptions=TERM_ASSUME,
      technique='AST rule over rank-dispatch chains + term algebra on the '
@@ -143,7 +170,8 @@ prop('C06',
                  'correctly; reported moments equal the closed-form moments.')
 
 prop('C07',
-     [layout.r07_1, layout.r07_3, layout.r07_4, iface.r02_7, rng.r16_2],
+     [layout.r07_1, layout.r07_3, layout.r07_4, iface.r02_7, rng.r16_2,
+      popmodels.r05_2, layout.r02_3],
      undecided=['sort stability of np.argsort for large selections',
                 'numerical equality with the per-individual evaluation'],
      assumptions=COMMON_ASSUME + [
@@ -181,7 +209,7 @@ prop('C08',
 
 prop('C09',
      [sbml.r09_1, sbml.r09_2, sbml.r09_3, sbml.r09_4, sbml.r09_5,
-      switch.r08_7, reduced.r08_1],
+      switch.r08_7, reduced.r08_1, mech.r11_1, mech.r11_5],
      undecided=['the ODE solution and its derivatives (myokit / sundials)',
                 'myokit\'s SBML import beyond the SBML level-3 reading of '
                 'species in kinetic laws'],
@@ -263,7 +291,8 @@ prop('C12',
 
 prop('C13',
      [layout.r13_1, noise.r13_3, layout.r02_3, CUR_FILTER, switch.r03_5,
-      iface.r02_6, iface.r02_7, filters.r12_4],
+      iface.r02_6, iface.r02_7, filters.r12_4, filters.r12_1, filters.r12_3,
+      filters.r12_5],
      undecided=['numerical value of the posterior', 'ODE solution'],
      assumptions=TERM_ASSUME + ['numpy reshape/flatten are C-ordered'],
      technique='symbolic shape/layout interpretation of the filter '
@@ -378,7 +407,8 @@ prop('C18',
 
 prop('C19',
      [copies.r19_3, copies.r11_3, copies.r11_6, switch.r03_5, mech.r11_1,
-      mech.r11_5, purity.r19_1, purity.r19_2, plots.r20_2],
+      mech.r11_5, purity.r19_1, purity.r19_2, plots.r20_2, switch.r08_7,
+      caches.r08_5],
      undecided=['multi-process behaviour (pickling, fork)',
                 'exception paths'],
      assumptions=COMMON_ASSUME,
